@@ -318,6 +318,9 @@ def reuse_histories(prop, acc):
     kinds = ('fwd',) if prop in ('C02', 'C08') else (('bwd',) if prop == 'C09' else ('fwd', 'bwd'))
     seconds = [((None, None, None), ((0, 1),), (4, 12, 8), None), ((None, 0, 0, None), ((0, 3),), (None, 12, 4, 8), None),
                ((None, None), (), (20, 2.5), None),
+               # the same two ids as in the first plan, now linked: the second task waits for two and a half days of work on the
+               # other resource (what was remembered about id 2 when it had no prerequisite must not be used)
+               ((None, None), ((0, 1),), (20, 4), None), ((None, None), ((1, 0),), (4, 20), None),
                # the ids of the first plan (1, 2) now sit below a NEW summary (id 3): the tasks were grouped after the first calc
                ((None, 0, 0), (), (None, 12, 4), (3, 1, 2))]
     for sched_kind in kinds:
